@@ -641,7 +641,7 @@ int read_msf(struct in_buffer* b,struct msa** m)
                                         seq_ptr->name[i] = 0;
                                         break;
                                 }
-                                if(isspace((unsigned char)p[i])){
+                                if(isspace((unsigned char)p[i]) || p[i] == 0){
                                         seq_ptr->name[i] = 0;
                                         break;
                                 }
@@ -662,6 +662,10 @@ int read_msf(struct in_buffer* b,struct msa** m)
                         active_seq = 0;
                 }else{
                         if(!isspace((unsigned char)line[0])){
+                                if(active_seq >= msa->numseq){
+                                        /* more lines in this block than names declared in the header */
+                                        continue;
+                                }
                                 seq_ptr = msa->sequences[active_seq];
                                 //p = strstr(line,seq_ptr->name);
                                 //if(p){
